@@ -148,6 +148,12 @@ def gen_corpus(rng: random.Random, today: dt.date) -> tuple[ZDir, dict]:
                 sub = pg.Section(level=2, words=[W(rng.choice([f"Sub{si}", "Work", "Log"]))], blocks=[block()])
                 sec.children.append(sub)
             p.sections.append(sec)
+        if rng.random() < 0.3:
+            # an H2 (with an H3 child) BEFORE the first H1: legal (body : NL+ block* h2_section* h1_section*)
+            pre = pg.Section(level=2, words=[W(rng.choice(["Inbox", "Work", "Pre"]))], blocks=[block()])
+            if rng.random() < 0.5:
+                pre.children.append(pg.Section(level=3, words=[W(rng.choice(["Later", "Log"]))], blocks=[block()]))
+            p.sections.insert(0, pre)
         z.pages[rel] = p
     pools = {"idents": TAGS, "keys": KEYS + ["ID", "RID", "nokey"], "desc_words": DESC_WORDS, "files": link_names + ["a_b", "axb", "sub/a_b", "nope"], "links": link_names + near_miss, "date_pool": sorted(dates_used), "str_values": STR_VALUES, "int_values": ["0", "10", "42", "100", "007", "25"], "date_values": ["2024-01-01", "2031-03-14", "2031-03-13", "2025-12-31", "0D", "7D", "1M", "1Y"]}
     return z, pools
